@@ -761,7 +761,12 @@ pub fn run_op(sh: &Arc<Shared>, o: &OpDesc) -> Value {
                         .lock()
                         .unwrap()
                         .insert(o.s.clone(), Arc::new(Mutex::new(sub)));
-                    json!("ok")
+                    // the channel must have been created with the capacity asked for (16 for subscribed())
+                    let want = if o.via == "default" { 16 } else { c.cap as i64 };
+                    match sched().chan_cap(&format!("{}{}", env.prefix, o.s)) {
+                        Some(got) if got != want => json!(format!("capacity:{}", got)),
+                        _ => json!("ok"),
+                    }
                 }
                 Err(_) => json!("err"),
             }
